@@ -3,7 +3,7 @@ contracts carry it, the bounded stand-ins that accompany it and the evidence lev
 
 PROPERTIES = {
     'C02': dict(
-        modules=['filters', 'rule', 'builder'], level='proof',
+        modules=['filters', 'rule', 'builder', 'webproc'], level='proof',
         claim='Every URL filter\'s test() equals a reference predicate written from the option\'s documented meaning, for all URLs, records and '
               'filter parameters; the demultiplexer\'s verdict is the conjunction over the configured list and its failed set is exact; FetchRule waives only '
               'the span-hosts rule and only on a redirect; every check_* entry point returns that verdict; the option->filter builder installs every '
@@ -12,5 +12,18 @@ PROPERTIES = {
         note='regex and fnmatch engines are uninterpreted (the contracts still pin which string is matched against which pattern); '
              'URLInfo.parse of stored URLs is assumed not to raise (table invariant: stored URLs are normalised); scripting hooks disconnected; the processor typestate (verdict precedes every request, web.py/ftp.py) is not yet under contract',
         not_decided=['that WebProcessorSession / FTPProcessorSession consult the verdict before every request (typestate) -- planned'],
+    ),
+    'C18': dict(
+        modules=['redirect', 'websession', 'itemsession', 'webproc'], level='proof',
+        claim='Integer/ghost-counter contracts on the real functions: the redirect counter counts every response carrying a Location and `exceeded` is '
+              'count > max; a redirect follow-up is installed only within the limit, an authentication retry only when the previous loop type was not '
+              'authentication; the per-visit loop of the web processor issues one request per iteration, approves it first, and has a lexicographic '
+              'variant (2*(max+1-count) + auth budget) that strictly decreases, so a visit terminates after at most 2*(max+1) requests; every handled '
+              'error consumes exactly one try and leaves the item in a final state; the item source offers todo before error and reports exhaustion '
+              'only when both are absent. The literal "+1 authentication retry" clause is REFUTED on the unchanged tree (known finding).',
+        note='"the table increments try_count when asked" and "check_out raises NotFound exactly when no row has the status" are assumed contracts of the '
+             'SQL table (bounded-checked under C14); scripting hooks disconnected; HTTPSession.start / WebSession.download are assumed (one request; C04/C08); '
+             'crawl-level termination composes these per-visit and per-URL bounds with TriesFilter (C02) by a paper argument (DESIGN 5, C18)',
+        not_decided=['termination of the whole crawl as one theorem (composition argument is on paper)'],
     ),
 }
